@@ -7,6 +7,7 @@ import (
 	"os"
 	"path/filepath"
 	"strings"
+	"sync"
 	"unicode"
 
 	"github.com/grafana/cog/internal/ast"
@@ -44,10 +45,15 @@ type Rule struct {
 	Exclude  []string
 	Opts     []string
 	Comments []string
+	Source   string            // merge_into
+	Under    string            // merge_into
+	RenameTo map[string]string // merge_into
 
 	InA2, InA3 bool
 	files      map[string]string
 	yaml       map[string]string
+	base       string
+	mu         sync.Mutex
 }
 
 func (r *Rule) Name() string {
@@ -552,6 +558,14 @@ func (g *gen) add(r *Rule) *Rule {
 	default:
 		sel = fmt.Sprintf("by_%s=%s.%s", r.Sel.Mode, r.Sel.Name, strings.Join(r.Sel.Options, "+"))
 	}
+	if r.B && r.Kind == "merge_into" {
+		r.Source, _ = r.Params["source"].(string)
+		r.Under, _ = r.Params["under_path"].(string)
+		r.RenameTo, _ = r.Params["rename_options"].(map[string]string)
+		if ex, ok := r.Params["exclude_options"].([]string); ok {
+			r.Exclude = ex
+		}
+	}
 	r.ID = fmt.Sprintf("%s(%s%s)@%s", r.Name(), sel, r.ID, r.Pkg)
 	if old, dup := s.byID[r.ID]; dup {
 		if g.dynamic {
@@ -567,15 +581,56 @@ func (g *gen) add(r *Rule) *Rule {
 		s.A1 = append(s.A1, r)
 	}
 	r.files, r.yaml = map[string]string{}, map[string]string{}
-	for _, lang := range []string{"all", "go"} {
-		r.yaml[lang] = r.render(lang)
-		p := filepath.Join(g.dir, fmt.Sprintf("s%02d_r%05d_%s.yaml", s.Idx, r.Idx, lang))
-		if err := os.WriteFile(p, []byte(r.yaml[lang]), 0o644); err != nil {
-			vx.Fatalf("writing %s: %v", p, err)
-		}
-		r.files[lang] = p
-	}
+	r.base = filepath.Join(g.dir, fmt.Sprintf("s%03d_r%05d", s.Idx, r.Idx))
 	return r
+}
+
+// text returns the YAML of the single-rule veneers file for a file language.
+func (r *Rule) text(lang string) string {
+	r.mu.Lock()
+	defer r.mu.Unlock()
+	if t, ok := r.yaml[lang]; ok {
+		return t
+	}
+	r.yaml[lang] = r.render(lang)
+	return r.yaml[lang]
+}
+
+// file returns (writing it on first use) the single-rule veneers file.
+func (r *Rule) file(lang string) string {
+	text := r.text(lang)
+	r.mu.Lock()
+	defer r.mu.Unlock()
+	if p, ok := r.files[lang]; ok {
+		return p
+	}
+	p := r.base + "_" + lang + ".yaml"
+	if err := os.WriteFile(p, []byte(text), 0o644); err != nil {
+		vx.Fatalf("writing %s: %v", p, err)
+	}
+	r.files[lang] = p
+	return p
+}
+
+// veneersDir returns (creating it on first use) a directory that holds
+// nothing but the rule's `language: all` file: what a pipeline configuration
+// lists under transformations.builders.
+func (r *Rule) veneersDir() string {
+	text := r.text("all")
+	r.mu.Lock()
+	defer r.mu.Unlock()
+	if p, ok := r.files["dir"]; ok {
+		return p
+	}
+	p := r.base + ".d"
+	if err := os.MkdirAll(p, 0o755); err != nil {
+		vx.Fatalf("creating %s: %v", p, err)
+	}
+	if err := os.WriteFile(filepath.Join(p, "rule.yaml"), []byte(text), 0o644); err != nil {
+		vx.Fatalf("writing %s: %v", p, err)
+	}
+	r.files["dir"] = p
+	return p
 }
 
 func with(base map[string]any, kv ...any) map[string]any {
@@ -727,6 +782,45 @@ func (s *Seed) dynamic(st *State) []*Rule {
 		bpkg := b.For.SelfRef.ReferredPkg
 		byName, nsel := map[string]any{"by_name": b.Name}, Sel{Mode: "name", Name: b.Name}
 		if !builderKnown {
+			// the new builder as source and as destination of merge_into:
+			// `source:` / `destination:` name BUILDERS, which is only
+			// distinguishable from naming objects once a builder was renamed,
+			// duplicated or composed
+			// (only when the name designates one builder: which of several
+			// homonymous builders a rule means is not documented)
+			unique := func(name string) bool {
+				n := 0
+				for i := range st.Builders {
+					if st.Builders[i].For.SelfRef.ReferredPkg == bpkg && strings.EqualFold(st.Builders[i].Name, name) {
+						n++
+					}
+				}
+				return n == 1
+			}
+			for di := range st.Builders {
+				d := &st.Builders[di]
+				if d.For.SelfRef.ReferredPkg != bpkg || !unique(b.Name) || !unique(d.Name) {
+					continue
+				}
+				for _, rp := range s.refPaths(d.For.Type, st.Builders) {
+					if rp.pkg == b.For.SelfRef.ReferredPkg && rp.obj == b.For.SelfRef.ReferredType {
+						g.add(&Rule{B: true, Pkg: bpkg, Kind: "merge_into", ID: ";source=" + b.Name + ";under=" + rp.path,
+							Params: map[string]any{"destination": d.Name, "source": b.Name, "under_path": rp.path}, Sel: Sel{Mode: "name", Name: d.Name}})
+					}
+				}
+			}
+			for _, rp := range s.refPaths(b.For.Type, st.Builders) {
+				if rp.pkg != bpkg {
+					continue
+				}
+				for si := range st.Builders {
+					src := &st.Builders[si]
+					if src.For.SelfRef.ReferredPkg == rp.pkg && src.For.SelfRef.ReferredType == rp.obj && unique(b.Name) && unique(src.Name) {
+						g.add(&Rule{B: true, Pkg: bpkg, Kind: "merge_into", ID: ";source=" + src.Name + ";under=" + rp.path,
+							Params: map[string]any{"destination": b.Name, "source": src.Name, "under_path": rp.path}, Sel: nsel})
+					}
+				}
+			}
 			g.add(&Rule{B: true, Pkg: bpkg, Kind: "omit", Params: byName, Sel: nsel})
 			g.add(&Rule{B: true, Pkg: bpkg, Kind: "rename", ID: ";as=Renamed2", Params: with(byName, "as", "Renamed2"), Sel: nsel, As: "Renamed2"})
 			g.add(&Rule{B: true, Pkg: bpkg, Kind: "duplicate", ID: ";as=Copy2", Params: with(byName, "as", "Copy2"), Sel: nsel, As: "Copy2"})
@@ -741,6 +835,46 @@ func (s *Seed) dynamic(st *State) []*Rule {
 		}
 	}
 	return g.out
+}
+
+type refPath struct{ path, pkg, obj string }
+
+// refPaths lists the field paths (depth 1, and depth 2 through an inline
+// struct or through a reference that has a builder) of a struct that hold a
+// reference to a struct object.
+func (s *Seed) refPaths(t ast.Type, builders []ast.Builder) []refPath {
+	var out []refPath
+	rt, ok := resolve(s.Pristine, t)
+	if !ok || rt.Kind != ast.KindStruct || rt.Struct == nil {
+		return nil
+	}
+	isStructRef := func(ft ast.Type) bool {
+		if ft.Kind != ast.KindRef || ft.Ref == nil {
+			return false
+		}
+		target, found := s.Pristine.LocateObject(ft.Ref.ReferredPkg, ft.Ref.ReferredType)
+		return found && target.Type.Kind == ast.KindStruct
+	}
+	for _, f := range rt.Struct.Fields {
+		if isStructRef(f.Type) {
+			out = append(out, refPath{f.Name, f.Type.Ref.ReferredPkg, f.Type.Ref.ReferredType})
+		}
+		inner, ok := resolveOnce(s.Pristine, f.Type)
+		if !ok || inner.Kind != ast.KindStruct || inner.Struct == nil {
+			continue
+		}
+		if f.Type.Kind == ast.KindRef {
+			if _, has := findBuilderFor(builders, f.Type.Ref.ReferredPkg, f.Type.Ref.ReferredType); !has {
+				continue
+			}
+		}
+		for _, gf := range inner.Struct.Fields {
+			if isStructRef(gf.Type) {
+				out = append(out, refPath{f.Name + "." + gf.Name, gf.Type.Ref.ReferredPkg, gf.Type.Ref.ReferredType})
+			}
+		}
+	}
+	return out
 }
 
 func optNamesOr(names []string, d string) string {
